@@ -324,6 +324,32 @@ func genC09(g *Gen) {
 		e.setDec("x", x)
 		g.emit(e)
 	})
+	// infinities through Float with every kind of receiver (nil, precision 0, a set precision)
+	g.gridRun(2*4, 0.01, func(i int) {
+		e := Ev{"op": "Float", "rprec": []int{-1, 0, 53, 128}[i/2]}
+		e.setDec("x", d128.Inf(1-2*(i%2)))
+		g.emit(e)
+	})
+	// solved hard cases of the correctly rounded conversion: decimals within about 2^-100 ulp of a rounding midpoint, for
+	// exponents over the whole span where the power of ten is no longer exact in the working precision
+	hexps := []int{1, 2, 5, 10, 20, 27, 28, 40, 55, 56, 60, 70, 82, 83, 84, 90, 100, 120, 150, 200, 250, 300, 400, 600,
+		-1, -2, -5, -10, -20, -27, -28, -40, -55, -56, -70, -83, -84, -100, -150, -200, -300, -400, -600}
+	hprecs := []int{-1, 128, 114, 200}
+	g.gridRun(len(hexps)*len(hprecs), 0.25, func(i int) {
+		rp := hprecs[i%len(hprecs)]
+		p := rp
+		if p < 0 {
+			p = 128
+		}
+		for try := 0; try < 6; try++ {
+			if x, ok := g.hardFloatCase(hexps[i/len(hprecs)], p); ok {
+				e := Ev{"op": "Float", "rprec": rp}
+				e.setDec("x", x)
+				g.emit(e)
+				return
+			}
+		}
+	})
 	g.floatEdgeGrid(0.3, func(x d128.Decimal) {
 		g.un("Float64", x)
 		g.un("Float32", x)
